@@ -200,7 +200,12 @@ theorem encEv_par (nS nM : Nat) {e e2 e' : Enc} {ev : MEv} (hv : linEv ev = true
     (he : encEv nS nM e ev = .ok e') : ∃ e2', encEv nS nM e2 ev = .ok e2' ∧ Par e e2 e' e2' := by
   obtain ⟨ty, arg⟩ := ev
   simp only [linEv, Bool.or_eq_true, Bool.and_eq_true, beq_iff_eq, decide_eq_true_eq, bne_iff_ne] at hv
-  rcases hv with ((⟨⟨hty, h1⟩, h2⟩ | ⟨⟨⟨h1, h2⟩, h3⟩, h4⟩) | hslr) | ⟨hcmd, _⟩
+  rcases hv with (((⟨⟨hty, h1⟩, h2⟩ | ⟨⟨⟨h1, h2⟩, h3⟩, h4⟩) | hslr) | ⟨hcmd, _⟩) | ⟨hz, ha⟩
+  rotate_right
+  · subst ha
+    rw [encEv_zero nS nM e hz] at he
+    injection he with he; subst he
+    exact ⟨e2, encEv_zero nS nM e2 hz, Par.refl' h⟩
   · subst hty
     have a1 : arg ≠ 0 := by omega
     obtain ⟨e1, he1⟩ := encRest_ok e arg
